@@ -329,7 +329,8 @@ FUNCTIONS_TABLE = os.path.join(os.path.dirname(os.path.dirname(os.path.abspath(_
 
 def fn_signature(fr, strs):
     """parameter and return types of a raw function record"""
-    return [strs[fr['locals'][i][0]] for i in range(0, fr['argc'] + 1) if i < len(fr['locals'])]
+    return [re.sub(r'\{(closure|coroutine)@[^{}]*\}', r'{\1}', strs[fr['locals'][i][0]])
+            for i in range(0, fr['argc'] + 1) if i < len(fr['locals'])]
 
 
 def _undo_private_renames(raw):
